@@ -238,3 +238,26 @@ bp_chunked = Contract(
                  'distinct)'],
 )
 UNITS.append(bp_chunked)
+
+
+# ------------------------------------------------------------------------------ generate_tasks: a job's bins become its task list unchanged
+generate_tasks = Contract(
+    PROP, FG + '::generate_tasks', name='generate_tasks',
+    params={'input_bam_path': ('const', 'in.bam'), 'temp_folder': ('const', 'tmp'),
+            'job_gen': lambda e, n: [[(named(STR, 'c0'), named(INT, 's0'), named(INT, 'e0'), named(INT, 'fs0'), named(INT, 'fe0')),
+                                      (named(STR, 'c1'), named(INT, 's1'), named(INT, 'e1'), named(INT, 'fs1'), named(INT, 'fe1'))],
+                                     [(named(STR, 'c2'), named(INT, 's2'), named(INT, 'e2'), named(INT, 'fs2'), named(INT, 'fe2'))]],
+            'iteration_args': ('const', {'molecule_iterator_args': 'ARGS'}), 'additional_args': ('const', {'consensus_mode': None}),
+            'max_time_per_segment': 'none'},
+    ensures={
+        'one_job_per_input_job_in_order': '(lambda result: len(result) == 2 and len(result[0][1]) == 2 and len(result[1][1]) == 1)(list(result))',
+        'every_bin_keeps_its_owner_interval_and_its_fetch_window':
+            '(lambda result: all(result[j][1][t]["contig"] == job_gen[j][t][0] and result[j][1][t]["start"] == job_gen[j][t][1] and '
+            'result[j][1][t]["end"] == job_gen[j][t][2] and result[j][1][t]["fetch_start"] == job_gen[j][t][3] and '
+            'result[j][1][t]["fetch_end"] == job_gen[j][t][4] for j in range(2) for t in range(len(job_gen[j]))))(list(result))',
+        'job_header': '(lambda result: all(result[j][0] == ("in.bam", "tmp", None) for j in range(2)))(list(result))',
+    },
+    raises={},
+    bounded='two jobs of 2 + 1 bins (symbolic coordinates)',
+)
+UNITS.append(generate_tasks)
